@@ -1070,3 +1070,171 @@ Example falsy_values_nonvacuous :
                (fun excl => Some (filter (fun kv => negb (in_strs (fst kv) excl)) [([116;113], VJ (JStr [71;69;78]))])) = Some f
              /\ assoc_get [116;113] f = Some (VJ (JInt 0))).
 Proof. repeat split; try (vm_compute; reflexivity). eexists. split; vm_compute; reflexivity. Qed.
+(* ---------------------------------------------------------------------- *)
+(* the link object over histories of evaluations *)
+Section LinkObjectProofs.
+  Variable src : Type.
+  Variable cid : src -> N.
+  Variable fresh : src -> extracted.
+  Variable fresh_body : src -> option xval.
+  Variable cap : nat.
+  Variable containers : list str.
+  (* the case id identifies the exchange: what the memo is keyed by determines what is extracted *)
+  Hypothesis cid_determines : forall x y, cid x = cid y -> fresh_view src cid fresh fresh_body x = fresh_view src cid fresh fresh_body y.
+
+  Local Notation fv := (fresh_view src cid fresh fresh_body).
+  Local Notation lextract := (link_extract src cid fresh fresh_body cap false containers).
+  Local Notation lrun := (link_run src cid fresh fresh_body cap false containers).
+
+  Definition refs_lt (t : tobj) (n : nat) : Prop := forall c r, In (c, r) (t_params t) -> (r < n)%nat.
+
+  Lemma read_app h ext t : refs_lt t (length h) -> read (h ++ ext) t = read h t.
+  Proof.
+    intros Hlt. unfold read. f_equal. f_equal.
+    apply map_ext_in. intros [c r] Hin. cbn [fst snd]. f_equal.
+    apply app_nth1. eapply Hlt; eauto.
+  Qed.
+
+  Lemma alloc_read_map (e : extracted) : forall h : heap,
+    map (fun cr : str * nat => (fst cr, nth (snd cr) (h ++ map snd e) [])) (List.combine (map fst e) (seq (length h) (length e))) = e.
+  Proof.
+    induction e as [|[c d] e IH]; intros h; [reflexivity|].
+    cbn [map fst snd length seq List.combine]. f_equal.
+    - f_equal. apply nth_middle.
+    - specialize (IH (h ++ [d])). rewrite <- app_assoc in IH. cbn [app] in IH.
+      rewrite app_length in IH. cbn [length] in IH. replace (length h + 1)%nat with (S (length h)) in IH by lia. exact IH.
+  Qed.
+
+  Lemma alloc_refs_lt (e : extracted) (h : heap) c r :
+    In (c, r) (List.combine (map fst e) (seq (length h) (length e))) -> (r < length (h ++ map snd e))%nat.
+  Proof.
+    intros Hin. apply in_combine_r in Hin. apply in_seq in Hin. rewrite app_length, map_length. lia.
+  Qed.
+
+  Lemma In_firstn {A} n (l : list A) x : In x (firstn n l) -> In x l.
+  Proof.
+    revert l. induction n as [|n IH]; intros [|a l]; cbn [firstn]; intros H; try contradiction.
+    destruct H as [H|H]; [left; exact H|right; apply IH; exact H].
+  Qed.
+
+  Lemma memo_get_In k m t : memo_get k m = Some t -> In (k, t) m.
+  Proof.
+    induction m as [|[k1 t1] m IH]; cbn [memo_get]; [discriminate|].
+    destruct (N.eqb k k1) eqn:E.
+    - intros H. inversion H; subst. apply N.eqb_eq in E. subst. left; reflexivity.
+    - intros H. right. apply IH. exact H.
+  Qed.
+
+  Definition memo_inv (st : lstate) : Prop :=
+    forall k t, In (k, t) (ls_memo st) ->
+      refs_lt t (length (ls_heap st)) /\ forall x, cid x = k -> read (ls_heap st) t = fv x.
+
+  Lemma link_extract_correct st x st1 t :
+    memo_inv st -> lextract st x = (st1, t) ->
+    memo_inv st1 /\ (exists ext, ls_heap st1 = ls_heap st ++ ext) /\ refs_lt t (length (ls_heap st1)) /\ read (ls_heap st1) t = fv x.
+  Proof.
+    intros Hinv. unfold link_extract.
+    destruct (memo_get (cid x) (ls_memo st)) as [t0|] eqn:Hget.
+    - intros H. inversion H; subst; clear H. cbn [ls_heap ls_memo].
+      apply memo_get_In in Hget. destruct (Hinv _ _ Hget) as [Hlt Hrd].
+      unfold memo_inv; cbn [ls_heap ls_memo]. split; [|split; [|split]].
+      + intros k0 t1 [Heq|Hin].
+        * inversion Heq; subst. apply Hinv. exact Hget.
+        * unfold memo_drop in Hin. apply filter_In in Hin. apply Hinv. exact (proj1 Hin).
+      + exists []. rewrite app_nil_r. reflexivity.
+      + exact Hlt.
+      + apply Hrd. reflexivity.
+    - unfold extract_impl, alloc. intros H. inversion H; subst; clear H. cbn [ls_heap ls_memo].
+      set (h := ls_heap st). set (e := fresh x).
+      assert (Hnew_lt : refs_lt {| t_parent := cid x; t_params := List.combine (map fst e) (seq (length h) (length e)); t_body := fresh_body x |}
+                                (length (h ++ map snd e))).
+      { intros c r Hin. cbn [t_params] in Hin. eapply alloc_refs_lt; eauto. }
+      assert (Hnew_rd : read (h ++ map snd e) {| t_parent := cid x; t_params := List.combine (map fst e) (seq (length h) (length e)); t_body := fresh_body x |} = fv x).
+      { unfold read, fresh_view. cbn [t_parent t_params t_body]. rewrite alloc_read_map. reflexivity. }
+      unfold memo_inv; cbn [ls_heap ls_memo]. split; [|split; [|split]].
+      + intros k0 t1 Hin. apply In_firstn in Hin. destruct Hin as [Heq|Hin].
+        * inversion Heq; subst. split; [exact Hnew_lt|]. intros y Hy. rewrite Hnew_rd. apply cid_determines. symmetry; exact Hy.
+        * destruct (Hinv _ _ Hin) as [Hlt Hrd]. split.
+          -- intros c r Hc. specialize (Hlt c r Hc). rewrite app_length. fold h in Hlt. lia.
+          -- intros y Hy. rewrite read_app by exact Hlt. apply Hrd. exact Hy.
+      + exists (map snd e). reflexivity.
+      + exact Hnew_lt.
+      + exact Hnew_rd.
+  Qed.
+
+  Lemma link_run_correct xs : forall st st2 ts,
+    memo_inv st -> lrun st xs = (st2, ts) ->
+    (exists ext, ls_heap st2 = ls_heap st ++ ext) /\
+    Forall2 (fun tv x => snd tv = fv x /\ read (ls_heap st2) (fst tv) = fv x) ts xs.
+  Proof.
+    induction xs as [|x xs IH]; intros st st2 ts Hinv; cbn [link_run].
+    - intros H. inversion H; subst. split; [exists []; rewrite app_nil_r; reflexivity|constructor].
+    - destruct (lextract st x) as [st1 t] eqn:Hex.
+      destruct (lrun st1 xs) as [st2' ts'] eqn:Hrun.
+      intros H. inversion H; subst; clear H.
+      destruct (link_extract_correct _ _ _ _ Hinv Hex) as (Hinv1 & [ext1 Hh1] & Hlt & Hrd).
+      destruct (IH _ _ _ Hinv1 Hrun) as ([ext2 Hh2] & Hall).
+      split.
+      + exists (ext1 ++ ext2). rewrite Hh2, Hh1, app_assoc. reflexivity.
+      + constructor; [|exact Hall]. cbn [fst snd]. split; [exact Hrd|].
+        rewrite Hh2. rewrite read_app by exact Hlt. exact Hrd.
+  Qed.
+
+  Lemma Forall2_weaken {A B} (P Q : A -> B -> Prop) l1 l2 :
+    (forall a b, P a b -> Q a b) -> Forall2 P l1 l2 -> Forall2 Q l1 l2.
+  Proof. intros HPQ H. induction H; constructor; auto. Qed.
+
+  Lemma Forall2_map_eq {A B C} (f : A -> C) (g : B -> C) l1 l2 :
+    Forall2 (fun a b => f a = g b) l1 l2 -> map f l1 = map g l2.
+  Proof. induction 1; cbn [map]; congruence. Qed.
+
+  Lemma link_extraction_independent_of_history xs :
+    views_at_return src cid fresh fresh_body cap false containers xs = map fv xs /\
+    views_at_end src cid fresh fresh_body cap false containers xs = map fv xs.
+  Proof.
+    unfold views_at_return, views_at_end.
+    destruct (lrun (link_init false containers) xs) as [st ts] eqn:Hrun.
+    assert (Hinv : memo_inv (link_init false containers)) by (intros k t []).
+    destruct (link_run_correct _ _ _ _ Hinv Hrun) as [_ Hall]. cbn [snd].
+    split.
+    - apply Forall2_map_eq with (f := snd) (g := fv). eapply Forall2_weaken; [|exact Hall]. intros a b [H _]; exact H.
+    - apply Forall2_map_eq with (f := fun tv => read (ls_heap st) (fst tv)) (g := fv).
+      eapply Forall2_weaken; [|exact Hall]. intros a b [_ H]; exact H.
+  Qed.
+End LinkObjectProofs.
+
+(* the instance over the real extraction functions: no hypothesis left (a source is named by its case id) *)
+Lemma link_history_denotes rx_ok rx_extract l tbl xs :
+  link_history rx_ok rx_extract l false tbl xs
+  = (link_fresh_views rx_ok rx_extract l tbl xs, link_fresh_views rx_ok rx_extract l tbl xs).
+Proof.
+  unfold link_history, link_fresh_views.
+  destruct (link_extraction_independent_of_history N (fun k => k)
+              (fun k : N => extract_parameters rx_ok rx_extract (ctx_at tbl k) l)
+              (fun k : N => extract_body rx_ok rx_extract (ctx_at tbl k) l) 8 (link_containers l)
+              (fun x y H => f_equal _ H) xs) as [H1 H2].
+  rewrite H1, H2. reflexivity.
+Qed.
+
+(* sentinel: inner dicts shared by all the Transitions of the link.  Two exchanges whose response bodies carry id 1 and id 2,
+   link parameter query.id = $response.body#/id, history [A; B; A] *)
+Definition cx_id (n : Z) : ctx :=
+  {| c_url := [117]; c_method := [112;111;115;116]; c_status := 201%Z; c_query := None; c_path := None; c_headers := None;
+     c_body := VNotSet; r_headers := []; r_body := Some (JObj [([105;100], JInt n)]) |}.
+Definition link_id : link :=
+  {| l_params := [{| lp_container := s_query; lp_name := [105;100]; lp_expr := JStr (print (RRespBody (Some [47;105;100]))) |}];
+     l_body := None; l_merge := true |}.
+Definition view_id (k : N) (n : Z) : tview := (k, [(s_query, [([105;100], XOk (VJ (JInt n)))])], None).
+
+Lemma link_shared_containers_sentinel :
+  link_fresh_views rx_any rx_none link_id [cx_id 1; cx_id 2] [0%N; 1%N; 0%N] = [view_id 0 1; view_id 1 2; view_id 0 1] /\
+  link_history rx_any rx_none link_id false [cx_id 1; cx_id 2] [0%N; 1%N; 0%N]
+  = ([view_id 0 1; view_id 1 2; view_id 0 1], [view_id 0 1; view_id 1 2; view_id 0 1]) /\
+  (* shared inner dicts: the memo hit for A returns the values of B, parent id still A; re-read at the end, the first
+     Transition of A says B as well *)
+  link_history rx_any rx_none link_id true [cx_id 1; cx_id 2] [0%N; 1%N; 0%N]
+  = ([view_id 0 1; view_id 1 2; view_id 0 2], [view_id 0 2; view_id 1 2; view_id 0 2]) /\
+  (* single-use sources and a source re-used before any other one is evaluated do not show it at return time *)
+  fst (link_history rx_any rx_none link_id true [cx_id 1; cx_id 2] [0%N; 0%N; 1%N; 1%N])
+  = [view_id 0 1; view_id 0 1; view_id 1 2; view_id 1 2].
+Proof. repeat split; vm_compute; reflexivity. Qed.
